@@ -139,3 +139,30 @@ Definition ufread_ok (c : fread_case) : bool :=
   end.
 
 Definition mismatches_ufread (cs : list fread_case) : list N := mismatches ufread_ok cs.
+
+(* ---- storage that fails a budget of requests and recovers (File/Transient.v): one reader, Seek(off) then Reads ---- *)
+From UV Require Import File.Transient.
+
+Record tread_case := mk_tread {
+  tr_src : fsrc;
+  tr_budget : list (N * N * N);            (* preorder index of a block, requests that fail, error kind *)
+  tr_off : Z;
+  tr_ks : list Z;                          (* buffer size of every Read made (retries included) *)
+  tr_obs : list (bytes * status)
+}.
+
+Definition tread_ok (c : tread_case) : bool :=
+  match fsrc_root (tr_src c) with
+  | Ok root =>
+    let order := preorder root in
+    let r := flat_map (fun x => let '(i, n, k) := x in
+                                match nth_error order (N.to_nat i) with
+                                | Some b => [(b, (N.to_nat n, ELoad k))]
+                                | None => []
+                                end) (tr_budget c) in
+    let '(out, _, _) := readsR r (stream nofault root (tr_off c)) (tr_ks c) in
+    list_eqb (fun a b => bytes_eqb (fst a) (fst b) && status_eqb (snd a) (snd b)) out (tr_obs c)
+  | _ => false
+  end.
+
+Definition mismatches_tread (cs : list tread_case) : list N := mismatches tread_ok cs.
